@@ -133,7 +133,7 @@ package coroutines
 //@ ensures [C15 C13] err != nil ==> kerr.platform(errcode(err))
 
 //@ func ClaimTask
-//@ props C02 C07 C20 C06
+//@ props C02 C07 C08 C20 C06
 //@ ghostdb coroutine
 //@ nopanic C13
 //@ overflow C07
